@@ -736,6 +736,140 @@ theorem prewarp_match_complex {σ ι o : Type*} [Fintype σ] [DecidableEq σ] (G
 
 end complex
 
+/-! ### the period argument as given (a number or `True`); the sampled system in a second step -/
+
+section period
+
+variable {K : Type} [Field K] [LinearOrder K] [IsStrictOrderedRing K]
+
+/-- for a numeric period `sampleP` is `sample` (the stored timebase is the number). -/
+theorem sampleP_num (G : DSS K) (q : ℚ) (method : C2dMethod) (alpha : Option K)
+    (pw : Option (Prewarp K)) (ext) :
+    G.sampleP (.num q) method alpha pw ext = G.sample q method alpha pw ext := by
+  unfold DSS.sampleP
+  show (match G.sample q method alpha pw ext with
+    | .error e => .error e
+    | .ok R => .ok ⟨R.n, R.p, R.m, R.sys, .disc q⟩) = G.sample q method alpha pw ext
+  cases h : G.sample q method alpha pw ext with
+  | error e => rfl
+  | ok R =>
+    obtain ⟨hd, -⟩ := sample_dt G q method alpha pw ext h
+    cases R
+    simp only at hd
+    subst hd
+    rfl
+
+/-- what `sampleP` returns: the numbers of `sample` at `P.val`, the timebase `P.dt`. -/
+theorem sampleP_inv (G : DSS K) (P : Period) (method : C2dMethod) (alpha : Option K)
+    (pw : Option (Prewarp K)) (ext) {R : DSS K}
+    (hR : G.sampleP P method alpha pw ext = .ok R) :
+    ∃ R', G.sample P.val method alpha pw ext = .ok R' ∧ R = ⟨R'.n, R'.p, R'.m, R'.sys, P.dt⟩ := by
+  unfold DSS.sampleP at hR
+  cases h : G.sample P.val method alpha pw ext with
+  | error e => simp [h] at hR
+  | ok R' =>
+    simp only [h] at hR
+    exact ⟨R', rfl, (Except.ok.inj hR).symm⟩
+
+/-- **Timebase, period as given**: whenever `sample` returns, the stored timebase is the period
+argument itself — the number `Ts`, or `True` when `Ts = True` (never the number 1, never the
+warped step) — and the dimensions are those of the continuous system. -/
+theorem sampleP_dt (G : DSS K) (P : Period) (method : C2dMethod) (alpha : Option K)
+    (pw : Option (Prewarp K)) (ext) {R : DSS K}
+    (hR : G.sampleP P method alpha pw ext = .ok R) :
+    R.dt = P.dt ∧ R.n = G.n ∧ R.p = G.p ∧ R.m = G.m := by
+  obtain ⟨R', h, rfl⟩ := sampleP_inv G P method alpha pw ext hR
+  obtain ⟨-, h1, h2, h3⟩ := sample_dt G P.val method alpha pw ext h
+  exact ⟨rfl, h1, h2, h3⟩
+
+/-- `Ts = True`: the result is *not* a system of period 1 — its timebase is `True` — while its
+matrices are those of sampling with period 1. -/
+theorem sampleP_true (G : DSS K) (method : C2dMethod) (alpha : Option K)
+    (pw : Option (Prewarp K)) (ext) {R : DSS K}
+    (hR : G.sampleP .btrue method alpha pw ext = .ok R) :
+    R.dt = .dtrue ∧ R.dt ≠ .disc 1 ∧
+      ∃ R', G.sample 1 method alpha pw ext = .ok R' ∧ R = ⟨R'.n, R'.p, R'.m, R'.sys, .dtrue⟩ := by
+  obtain ⟨R', h, rfl⟩ := sampleP_inv G .btrue method alpha pw ext hR
+  exact ⟨rfl, by simp [Period.dt], R', h, rfl⟩
+
+/-- **Defining relation, period as given**: as `sample_gbt_resp`, with the step computed from
+`P.val` (1 for `True`) and the stored timebase `P.dt`. -/
+theorem sampleP_gbt_resp (G : DSS K) (P : Period) (method : C2dMethod) (alpha : Option K)
+    (pw : Option (Prewarp K)) (ext) {R : DSS K}
+    (hR : G.sampleP P method alpha pw ext = .ok R) (hm : method ≠ .zoh) :
+    ∃ a h, gbtAlpha method alpha = .ok a ∧ twarp method alpha P.val pw = .ok h ∧
+      ∃ S : SS (Fin G.n) (Fin G.m) (Fin G.p) K, R = ⟨G.n, G.p, G.m, S, P.dt⟩ ∧
+        ∀ (z : K) (Y : Matrix (Fin G.p) (Fin G.m) K), h * (a * z + 1 - a) ≠ 0 →
+          G.sys.Resp ((z - 1) / (h * (a * z + 1 - a))) Y → S.Resp z Y := by
+  obtain ⟨R', h', rfl⟩ := sampleP_inv G P method alpha pw ext hR
+  obtain ⟨a, h, ha, htw, S, rfl, hS⟩ := sample_gbt_resp G P.val method alpha pw ext h' hm
+  exact ⟨a, h, ha, htw, S, rfl, hS⟩
+
+/-- a discrete-time source is rejected whatever the period argument is. -/
+theorem sampleP_not_continuous_raises (G : DSS K) (P : Period) (method : C2dMethod)
+    (alpha : Option K) (pw : Option (Prewarp K)) (ext) (h : G.dt.isCt = false) :
+    G.sampleP P method alpha pw ext = .error .timebase := by
+  unfold DSS.sampleP
+  rw [sample_not_continuous_raises G P.val method alpha pw ext h]
+
+/-- the transfer-function path stores the period argument itself as well (so state-space and
+transfer-function inputs give the same timebase, `True` included). -/
+theorem tfSampleP_dt (num den : List K) (dt : Dt) (P : Period) (method : C2dMethod)
+    (alpha : Option K) (pw : Option (Prewarp K)) {nd dd : List K} {d : Dt}
+    (hR : tfSampleP num den dt P method alpha pw = .ok (nd, dd, d)) :
+    d = P.dt ∧ dt.isCt = true ∧
+      ∃ a h, gbtAlpha method alpha = .ok a ∧ twarp method alpha P.val pw = .ok h ∧
+        tfGbt a h num den = .ok (nd, dd) := by
+  unfold tfSampleP at hR
+  cases h : tfSample num den dt P.val method alpha pw with
+  | error e => simp [h] at hR
+  | ok r =>
+    obtain ⟨n', d', t'⟩ := r
+    simp only [h, Except.ok.injEq, Prod.mk.injEq] at hR
+    obtain ⟨rfl, rfl, rfl⟩ := hR
+    obtain ⟨-, h1, -, a, hh, ha, htw, ht⟩ := tfSample_dt num den dt P.val method alpha pw h
+    exact ⟨rfl, h1, a, hh, ha, htw, ht⟩
+
+/-- **Second step, `Ts = True`**: a system sampled with an unspecified period adopts the period
+of any discrete-time system it is combined with, whichever operand it is (a result stored with
+timebase `1.0` instead would raise "incompatible timebases" unless the other period is 1). -/
+theorem join_true_adopts (h : ℚ) (hh : 0 < h) (first : Bool) :
+    joinDt .btrue (.disc h) first = .ok (.disc h) := by
+  cases first <;> simp [joinDt, Period.dt, common, hh]
+
+/-- `Ts = True` combined with `None`, `True`, and a continuous-time system. -/
+theorem join_true_table (first : Bool) :
+    joinDt .btrue .none first = .ok .dtrue ∧ joinDt .btrue .dtrue first = .ok .dtrue ∧
+      joinDt .btrue .cont first = .error .timebase := by
+  cases first <;> simp [joinDt, Period.dt, common]
+
+/-- **Second step, numeric period**: combined with `None` or `True` the period is kept;
+combined with another sampled system the periods must agree (`numpy.isclose`). -/
+theorem join_num_table (q : ℚ) (hq : 0 < q) (h : ℚ) (first : Bool) :
+    joinDt (.num q) .none first = .ok (.disc q) ∧ joinDt (.num q) .dtrue first = .ok (.disc q) ∧
+      joinDt (.num q) (.disc h) true = (if close q h then .ok (.disc q) else .error .timebase) ∧
+      joinDt (.num q) (.disc h) false = (if close h q then .ok (.disc h) else .error .timebase) := by
+  cases first <;> simp [joinDt, Period.dt, common, hq, Dt.num] <;> exact ⟨by congr, by congr⟩
+
+end period
+
+/-- the matched method stores the period argument itself, and matches with `P.val`. -/
+theorem matchedP_inv {K : Type} [Field K] [DecidableEq K] (num den zeros poles : List K)
+    (E : K → K) (P : Period) {nd dd : List K} {d : Dt}
+    (hr : c2dMatchedP num den zeros poles E P = .ok (nd, dd, d)) :
+    d = P.dt ∧ c2dMatched num den zeros poles E P.val = .ok (nd, dd, .disc P.val) := by
+  unfold c2dMatchedP at hr
+  cases h : c2dMatched num den zeros poles E P.val with
+  | error e => simp [h] at hr
+  | ok r =>
+    obtain ⟨n', d', t'⟩ := r
+    simp only [h, Except.ok.injEq, Prod.mk.injEq] at hr
+    obtain ⟨rfl, rfl, rfl⟩ := hr
+    have ht : t' = .disc P.val := (matched_inv num den zeros poles E P.val h).2.2.2.2.2.2.2
+    subst ht
+    exact ⟨rfl, rfl⟩
+
+
 /-! ### non-vacuity: concrete instances meeting the hypotheses -/
 
 section examples
@@ -780,6 +914,15 @@ example : ExpFlow (Fin 1) (Fin 1) ℚ where
     simp [add_smul, add_comm]
   low₂₁ t := by simp
   low₂₂ t := by simp
+
+/-- non-vacuity of the period theorems: the 2-state system sampled with `Ts = True` returns with
+timebase `True`; in a second step it adopts the period `1/10`, where a system of period 1 raises. -/
+example : okAnd (exD.sampleP .btrue .bilinear none none none) (fun R => decide (R.dt = .dtrue)) = true := by
+  decide +kernel
+example : joinDt .btrue (.disc (1 / 10)) true = .ok (.disc (1 / 10)) ∧
+    joinDt (.num 1) (.disc (1 / 10)) true = .error .timebase := by decide +kernel
+example : tfSampleP (K := ℚ) [1] [1, 1] .cont .btrue .bilinear none none
+    = .ok ([1 / 3, 1 / 3], [1, -1 / 3], .dtrue) := by decide +kernel
 
 end examples
 
